@@ -52,6 +52,18 @@ CLAIMED["C01"] = dict(
          "pandas result assembly (read through the final tables). Runs that do not converge are skipped and counted.",
     technique="Coq proof (induction over link lists, divergence identity) + structural and exact-rational correspondence on real simulator runs")
 
+CLAIMED["C09"] = dict(
+    text="Proof: the model's flagged set is exactly the junctions with no path of non-closed links to a tank or reservoir (reachability "
+         "closure checked closed; soundness by induction on iterations, completeness by induction on paths), so a connected junction is "
+         "never flagged -- for every topology incl. parallel links in either direction. Tie decided inside coqc: at every solve of real "
+         "runs the junction and link _is_isolated flags equal the model's sets computed from the link statuses of that moment, and at every "
+         "reported step demand/pressure/flow of the isolated junctions and links are zero; histories come from controls/rules/CVs.",
+    ref="DESIGN.md section 5 C09",
+    note="Trusted: Coq kernel (axiom-free theorems); tracing wrapper; freshly compiled _network_isolation extension. Modelled not verified: "
+         "the CSR matrix, the parallel-link bookkeeping and the incremental update are not modelled separately -- they are covered by comparing "
+         "their outcome with the from-scratch model at every solve of every generated history (so the tie is bounded by the generator).",
+    technique="Coq proof (graph reachability, induction) + exact differential check of isolation flags at every solve")
+
 NOT_YET = {
 }
 
